@@ -30,6 +30,12 @@ MISUSE = [
     ("self-receiver-value", "Foo", ["pub fn f(", "self", ", a: i32) {}"], "Function cannot have a self receiver", 1),
     ("concrete-in-module", "Foo", ["pub mod m { pub fn a(deps:", "&u32", ") {} }"], "Using concrete dependencies in a module is an anti-pattern", 1),
     ("concrete-in-impl", "", ["impl TrImpl for X { fn a(deps:", "&u32", ") {} }"], "Cannot (yet) use concrete dependency in an impl block", 1),
+    ("concrete-in-module-later-fn", "Foo", ["pub mod m { pub fn a(deps: &impl ::core::any::Any) {} fn p() {} pub fn b(deps:", "&u32", ") {} }"], "Using concrete dependencies in a module is an anti-pattern", 1),
+    ("concrete-in-module-third-fn", "Foo", ["pub mod m { pub fn a<D>(deps: &D) {} pub fn b(deps: &impl Sized) {} pub fn c(deps:", "&u32", ") {} }"], "Using concrete dependencies in a module is an anti-pattern", 1),
+    ("concrete-in-impl-later-fn", "", ["impl TrImpl for X { fn a(deps: &impl ::core::any::Any) {} fn b(deps:", "&u32", ") {} }"], "Cannot (yet) use concrete dependency in an impl block", 1),
+    ("missing-deps-in-module-later-fn", "Foo", ["pub mod m { pub fn a(deps: &impl ::core::any::Any) {} pub fn", "b", "() {} }"], MSG_DEPS, 1),
+    ("self-receiver-in-impl-later-fn", "", ["impl TrImpl for X { fn a(deps: &impl ::core::any::Any) {} fn b(", "&self", ") {} }"], "Function cannot have a self receiver", 1),
+    ("unknown-option-after-valid-ones", "Foo, no_deps, export = false, mock_api = M,\nbogus", ["pub fn f(deps: &()) {}"], 'Unkonwn entrait option "bogus"', -1),
     ("unknown-option", "Foo,\nbogus", ["pub fn f(deps: &()) {}"], 'Unkonwn entrait option "bogus"', -1),
     ("unknown-question-option", "Foo, ?\nSync", ["pub fn f(deps: &()) {}"], 'Unkonwn entrait option "Sync"', -1),
     ("unsupported-delegate-by-on-fn", "Foo,\ndelegate_by = ref", ["pub fn f(deps: &()) {}"], "Unsupported option", -1),
@@ -108,12 +114,26 @@ def enumerate_states(tier):
                 states.append(dict(key="p_%s_%s_%s" % ("_".join(w) or "none", "body" if body else "decl", d), kind="traitpat",
                                    word=list(w), body=body, deleg=d))
                 transitions += 1
-    return states, transitions, dict(attr_token_alphabet=len(TOKENS), attr_word_len=maxlen, item_kinds=list(ITEMS),
+    from . import c16
+    fwords, t = common.words(c16.SYMS, 2)
+    for w in fwords:
+        for ctx in ("gen", "nodeps", "mod", "impl"):
+            for fname in ("f", "r#type"):
+                if not c16.valid(w, fname):
+                    continue
+                states.append(dict(key="q_%s_%s_%s" % ("_".join(w) or "none", ctx, "raw" if fname != "f" else "f"), kind="fnpat",
+                                   word=list(w), ctx=ctx, fname=fname))
+                transitions += 1
+    return states, transitions, dict(fn_pattern_alphabet=len(c16.SYMS), fn_pattern_word_len=2, attr_token_alphabet=len(TOKENS), attr_word_len=maxlen, item_kinds=list(ITEMS),
                                      misuse_cases=len(MISUSE), trait_pattern_alphabet=len(PATS), trait_pattern_word_len=2)
 
 
 def render(s):
     key = s["key"]
+    if s["kind"] == "fnpat":
+        from . import c16
+        u = c16.render(dict(s))
+        return engine.Unit(key, u.src, None, s)
     L = ["mod %s {" % key]
     if s["kind"] == "attr":
         if s["item"] == "impl":
@@ -144,7 +164,7 @@ def misuse_lines(s):
 def evaluate(states, report, tier):
     units = [render(s) for s in states]
     results = {}
-    for kind in ("attr", "misuse", "traitpat"):
+    for kind in ("attr", "misuse", "traitpat", "fnpat"):
         group = [u for s, u in zip(states, units) if s["kind"] == kind]
         if not group:
             continue
@@ -221,6 +241,8 @@ def evaluate(states, report, tier):
                 tags |= {"item:" + s["item"]} | {"tok:" + TOKENS[i] for i in s["word"]}
             elif s["kind"] == "misuse":
                 tags |= {"case:" + s["name"]}
+            elif s["kind"] == "fnpat":
+                tags |= {"pat:" + p for p in s["word"]} | {"ctx:" + s["ctx"], "fname:" + s["fname"]}
             else:
                 tags |= {"pat:" + p for p in s["word"]} | {"deleg:" + s["deleg"], "body" if s["body"] else "decl"}
             report.violation(s["key"], tags, sig, detail, state=s, source=engine.standalone_source(u), meta=dict(mode="expand"))
